@@ -119,6 +119,7 @@ fn verif_native_window_edges_with_real_vouchers() {
 fn verif_native_now_uses_the_clock_reading() {
     let t = "verif_native_now_uses_the_clock_reading";
     let params = raffle::VouchingParameters::parse_or_die(VOUCH);
+    let other = raffle::VouchingParameters::parse_or_die(OTHER);
     let mut accepted = 0usize;
     for round in 0..40 {
         for w in [-59_901i128, -59_900, -59_899, -1, 0, 1, 2_989, 2_990, 2_991] {
@@ -142,6 +143,22 @@ fn verif_native_now_uses_the_clock_reading() {
                 if local != PrimitiveDateTime::new(clock.date(), clock.time()) {
                     println!("VERIF-CEX {} now() read the clock at {} but the value reports {}", t, clock, local);
                     panic!("{}", t);
+                }
+            }
+            // "the same rule": the voucher half too.  A provider that answers with a base time inside the window but a voucher
+            // for another value, or one made under other parameters, must be refused exactly as new() refuses it.
+            if expect {
+                for bad in 0..2 {
+                    let r = VouchedTime::now(|clock| {
+                        let ms = clock.unix_timestamp_nanos().div_euclid(1_000_000);
+                        let base = (ms - w) as u64;
+                        Ok((base, if bad == 0 { params.vouch(base ^ 1) } else { other.vouch(base) }))
+                    });
+                    if r.is_ok() {
+                        println!("VERIF-CEX {} now() accepted a base time {} ms from the clock with a voucher {}", t, w,
+                                 if bad == 0 { "for another value" } else { "made under other parameters" });
+                        panic!("{}", t);
+                    }
                 }
             }
         }
